@@ -645,6 +645,13 @@ class Combiner(Node):
                 self.check_thread_state_and_update_combiner_state()               
                 print(f"T={self.env.now:.2f}: {self.id} is in {self.state}")
 
+                # the worker slot is taken before anything is pulled (as in Machine): while the
+                # previous pallet is still waiting to be pushed no second unit of work is gathered
+                worker_thread_req = self.worker_thread.request()  # Request a worker thread
+                yield worker_thread_req
+                #update occupancy
+                self._update_worker_occupancy(action="ADD")
+
                 #Getting the Pallet
 
                 get_token = self.in_edges[0].reserve_get()
@@ -717,10 +724,6 @@ class Combiner(Node):
                 #get processing_time
                 next_processing_time = self.get_delay(self.processing_delay)
                 #print("!!!!!!!!!!!!!!!!!!EGKEKHRTUOYO!!!!!!!!!!!!!!!!!!!!!!!!!", next_processing_time)
-                worker_thread_req = self.worker_thread.request()  # Request a worker thread
-                yield worker_thread_req
-                #update occupancy
-                self._update_worker_occupancy(action="ADD")
                 self.stats["processing_delay"].append(next_processing_time)  # Update the processing delay in stats
                 print(f"T={self.env.now:.2f}: {self.id} worker started processing pallet {self.pallet_in_process.id} ")
                 # packing happens here, before the worker process exists: no thread is registered
